@@ -24,6 +24,7 @@ OBLIGATIONS = [
     (P + "stats_match_history", "stats = (number of held keys, total number of entry-trigger links) after every history"),
     (P + "matches_reference", "every history and every allocation outcome (low-memory answers, failing copies, bad_alloc inside): the model answers every operation (fetch results, stats counts) exactly as the reference cache written from the property text (expired earliest-deadline first, else LRU; room made while the allocator reports low memory)"),
     (P + "matches_reference_thread", "thread back-end: the entry-count cap never fires, matches_reference holds unconditionally"),
+    (P + "segment_and_locks_are_process_shared", "posix_util.h (generated): every mmap of mmap_anonymous is MAP_SHARED, the mutex/rwlock are PTHREAD_PROCESS_SHARED and live in such pages"),
     (P + "max_available_is_max_free_chunk", "shmem_control::max_available() is the allocator's max_free_chunk() (translator), i.e. the memory-pressure test looks at the largest free chunk"),
     (P + "pressure_off_when_chunk_free", "not_enough_memory() modelled over the buddy arena (generated 10% fraction): false as soon as a free block of >= 10% of the segment exists"),
     (P + "buddy_init_normal", "buddy allocator: the constructed arena is in coalesced normal form"),
@@ -32,9 +33,30 @@ OBLIGATIONS = [
     (P + "buddy_used_after_free", "buddy allocator: free removes exactly the freed block"),
     (P + "buddy_address_is_sibling", "get_buddy's generated expression p_len xor p_ptr is the other half of the enclosing block (the sibling of the tree model)"),
     (P + "malloc_order_ge_min", "buddy allocator: every block malloc hands out has order >= minBits (room for struct page); needs the clamp in malloc (defect fixed)"),
+    (P + "malloc_order_is_smallest", "buddy allocator: the block handed out is the smallest power of two holding the padded request (uses the generated comparison of get_bits)"),
     (P + "malloc_zero_counterexample", "without the clamp malloc(0) gets an order-4 block, smaller than struct page (the defect as found)"),
     (P + "free_all_restores", "buddy allocator: after any malloc/free sequence with no block left in use the arena equals the freshly constructed one (fill, empty, refill indefinitely)"),
 ]
+
+
+def spec_order(size):
+    """the order a request of `size` bytes is owed (written from the property text, independent of Gen/model): one
+    16-byte header unit is added, the sum is rounded up to a multiple of 16, and the block is the smallest power of
+    two that holds it, never smaller than 32 bytes"""
+    n = max(32, ((size + 15) // 16 + 1) * 16)
+    k = 5
+    while (1 << k) < n:
+        k += 1
+    return k
+
+
+def order_problem(plain, out):
+    """first `bmalloc n` whose block is not of the owed order"""
+    for l, o in zip(plain, out):
+        w, a = l.split(), o.split()
+        if w and w[0] == "bmalloc" and a and a[0] == "at" and int(a[2]) != spec_order(int(w[1])):
+            return f"bmalloc {w[1]} was given a block of order {a[2]} (2^{a[2]} bytes); the smallest block holding the padded request has order {spec_order(int(w[1]))}"
+    return None
 
 
 def buddy_fails(c, bbin, lines):
@@ -47,6 +69,9 @@ def buddy_fails(c, bbin, lines):
         return "allocator aborted (sanitizer/assertion): " + " / ".join(tail[:3])[:400]
     if not out[0].startswith("ok"):
         return None
+    op = order_problem(plain, out)
+    if op:
+        return op
     if out[-1].split("|", 1)[1] != out[0].split("|", 1)[1]:
         return f"all blocks freed but the free lists are{out[-1].split('|', 1)[1]} instead of{out[0].split('|', 1)[1]}"
     return None
@@ -110,9 +135,16 @@ def _buddy_stream(c, rng, ask, total, nops, p):
             r = rng.random()
             size = rng.randrange(0, 48) if r < 0.35 else rng.randrange(0, 600) if r < 0.7 else rng.randrange(0, max(1, usable // 8)) if r < 0.9 \
                 else rng.choice((usable, usable // 2, usable // 2 - 16, usable // 4 - 16, usable // 4 - 15, 2 * usable, 1 << rng.randrange(4, 20), (1 << rng.randrange(4, 20)) - 16))
+            if rng.random() < 0.3:
+                # at and around every power of two: the padded size (request + 16, rounded up to 16) is exactly 2^k
+                # for requests of 2^k-31 .. 2^k-16
+                k2 = rng.randrange(5, max(6, usable.bit_length() + 1))
+                size = max(0, (1 << k2) + rng.choice((-33, -32, -31, -30, -24, -17, -16, -15, -1, 0, 1)))
             lines.append(f"bmalloc {size}")
             o = ask(f"bmalloc {size}")
             w = o.split()
+            if w[0] == "at" and int(w[2]) != spec_order(size):
+                problems.append(order_problem([f"bmalloc {size}"], [o]))
             if w[0] == "at":
                 live.append(int(w[1]))
                 lines[-1] = f"bmalloc {size} at={w[1]}"
@@ -150,6 +182,9 @@ def gen_streams(c):
         hs.append(H.evict_history(rng, rng.choice(("thread", "process")), rng.choice((1, 2, 3, 4, 5, 6, 7, 8)), shm,
                                   rng.randrange(40, 300)))
     streams.append(("limits", shm, hs, False))
+    # the process-shared cache used from 2-3 worker processes forked after its creation (global history = line order)
+    hs = [H.fork_history(rng, rng.choice((1, 2, 3, 4, 8)), shm, rng.randrange(30, 150), rng.choice((2, 3))) for _ in range(200 if thorough else 25)]
+    streams.append(("fork", shm, hs, False))
     # process-shared back-end in small segments: memory pressure, oversized values, fill/clear cycles
     for seg in ((512 << 10, 1 << 20, 4 << 20) if thorough else (512 << 10, 2 << 20)):
         hs = []
@@ -281,10 +316,10 @@ def main():
         cases, hist_of = r["cases"], r["hist_of"]
         judged += len(cases)
         for cs in cases:
-            dist[cs.split()[0]] = dist.get(cs.split()[0], 0) + 1
+            dist[H.bare(cs).split()[0]] = dist.get(H.bare(cs).split()[0], 0) + 1
         # count evictions seen (store after which the key count did not grow by the expected amount): coverage information
         for k in range(1, len(cases)):
-            if cases[k].startswith("store ") and k < len(r["raw"]):
+            if H.bare(cases[k]).startswith("store ") and k < len(r["raw"]):
                 try:
                     a = int(r["raw"][k - 1].split("|")[1].split()[0]); b = int(r["raw"][k].split("|")[1].split()[0])
                     if b < a or (b == a and a > 0):
